@@ -68,4 +68,27 @@ def gen_load(repo):
     return s, len(d)
 
 
-GENERATORS = {"Load": gen_load}
+def gen_loadsig(repo):
+    """the enumerations send_signal / count_cores_in_state look their argument up in, and the
+    signal -> message type table (`consts.signal_types`)"""
+    consts = importlib.import_module("rig.machine_control.consts")
+
+    def names(enum):
+        return "[" + ", ".join('("%s", %d)' % (m.name, int(m)) for m in enum) + "]"
+    sig_types = "[" + ", ".join("(%d, %d)" % (int(k), int(v)) for k, v in consts.signal_types.items()) + "]"
+    diag_types = "[" + ", ".join("(%d, %d)" % (int(k), int(v))
+                                 for k, v in consts.diagnostic_signal_types.items()) + "]"
+    s = HEADER + "namespace Rig.Gen.LoadSig\n"
+    s += "/-- `consts.AppSignal`: (name, value) in definition order -/\n"
+    s += "def appSignals : List (String × Nat) := %s\n" % names(consts.AppSignal)
+    s += "/-- `consts.signal_types`: signal value -> message type -/\n"
+    s += "def signalTypes : List (Nat × Nat) := %s\n" % sig_types
+    s += "/-- `consts.AppState`: (name, value) in definition order -/\n"
+    s += "def appStates : List (String × Nat) := %s\n" % names(consts.AppState)
+    s += "/-- `consts.diagnostic_signal_types`: diagnostic signal value -> message type -/\n"
+    s += "def diagSignalTypes : List (Nat × Nat) := %s\n" % diag_types
+    s += "end Rig.Gen.LoadSig\n"
+    return s, len(consts.AppSignal) + len(consts.signal_types) + len(consts.AppState) + len(consts.diagnostic_signal_types)
+
+
+GENERATORS = {"Load": gen_load, "LoadSig": gen_loadsig}
